@@ -84,6 +84,8 @@ pub fn gen_c02(out: &mut dyn Write, thorough: bool, seed: u64) {
             }
             let labels = rand_labels(&mut r, n - 1, &['N', 'W', 'U', 'U']);
             writeln!(out, "H fct {}^00 Fraw:{},pred:0,setbs:{},obs:TBKGIW c02", m.to_text(), hexs(&text), labels).unwrap();
+            // … and is then predicted again, by the same predictor: every label is decided anew
+            writeln!(out, "H fct {}^00 Fraw:{},pred:0,setbs:{},pred:0,obs:TBKGIW c02p", m.to_text(), hexs(&text), labels).unwrap();
         }
     }
     // random: longer texts, with tags on some characters
